@@ -141,6 +141,25 @@ func probe(cfg *ipa.IPAConfig) []int {
 	ch := t2.ChallengeScalar([]byte("c"))
 	cb := ch.Bytes()
 	h.Write(cb[:])
+	// the pure helpers directly: evaluation coefficients outside the domain, a quotient, a decompression, a scalar round trip
+	for _, e := range cfg.PrecomputedWeights.ComputeBarycentricCoefficients(frFromBig(big.NewInt(300))) {
+		eb := e.Bytes()
+		h.Write(eb[:])
+	}
+	for _, e := range cfg.PrecomputedWeights.DivideOnDomain(7, f) {
+		eb := e.Bytes()
+		h.Write(eb[:])
+	}
+	gb := banderwagon.Generator.Bytes()
+	var dec banderwagon.Element
+	derr := dec.SetBytes(gb[:])
+	db := dec.Bytes()
+	h.Write(db[:])
+	h.Write([]byte(fmt.Sprint(derr == nil)))
+	var sc fr.Element
+	sc.SetBytesLE(cb[:])
+	sb := sc.BytesLE()
+	h.Write(sb[:])
 	return bytesToInts(h.Sum(nil))
 }
 
@@ -326,6 +345,9 @@ func (d *driver) runPurityProgram(w emitter, pid int, line []byte) {
 				fb := append([]fr.Element(nil), f...)
 				_ = cfg.PrecomputedWeights.DivideOnDomain(uint8(o.A%256), f)
 				_ = cfg.PrecomputedWeights.ComputeBarycentricCoefficients(frFromBig(big.NewInt(int64(300 + o.A))))
+				if o.A%2 == 1 { // a point INSIDE the domain (outside what C18 quantifies over, but a legal call)
+					_ = cfg.PrecomputedWeights.ComputeBarycentricCoefficients(frFromBig(big.NewInt(int64(o.A % 256))))
+				}
 				unchanged = eqFr(f, fb)
 			case "failing":
 				// calls that FAIL (rejections and error returns), one of several kinds: whatever a failing call leaves behind must not
